@@ -223,7 +223,20 @@ def mutation_list(draw, chunks):
         elif k == "opt":
             i = draw(st.sampled_from(opt_idx))
             ln = len(chunks[i][1])
-            b = draw(st.binary(min_size=max(1, ln - 2), max_size=min(64, ln + 2)))
+            if draw(st.booleans()):
+                b = draw(st.binary(min_size=max(1, ln - 2), max_size=min(64, ln + 2)))
+            else:
+                # structured: everything off except one option's field (each single option in turn is an
+                # edge case of the record: inverted options, exclusive pairs, multi-bit fields at their top)
+                t = types.get(info[i][0])
+                o = draw(st.sampled_from(spec[t].options))
+                v = draw(st.sampled_from(sorted({1, (1 << o.size) - 1})))
+                bm = bytearray(max(ln, o.byte + 1))
+                bm[o.byte] = (v << o.bit) & 0xFF
+                if draw(st.booleans()):
+                    o2 = draw(st.sampled_from(spec[t].options))
+                    bm[o2.byte] |= (1 << o2.bit) & 0xFF
+                b = bytes(bm)
             muts.append(["opt", i, b.hex()])
         elif k == "link":
             i = draw(st.sampled_from(link_idx))
